@@ -25,11 +25,13 @@ ASSUMPTIONS = [
     'available_tcp_port (name in txtorcon.endpoints) returns a harness-chosen port',
     'fallback: the name TCP4ClientEndpoint in txtorcon.endpoints is replaced by a double whose connect() has a harness-chosen outcome',
 ]
-BOUNDS = {'quick': {'existing': 'unset (+default), 1 or 2 entries from 5 forms', 'request': 'none / first word of an entry / a proper prefix of one / absent'},
+BOUNDS = {'quick': {'existing': 'unset (+default, plain or with option words), 1 or 2 entries from 6 forms (incl. auto)', 'request': 'none / first word of an entry / a proper prefix of one / absent'},
           'thorough': {}}
-OUTSIDE = ['more than 2 existing entries', 'SOCKSPort lines whose unix path contains a space']
+OUTSIDE = ['more than 2 existing entries', "'SocksPort auto' seen through TorConfig (it consults Tor's __SocksPort pseudo-option, whose answer under 'auto' is not modelled; the entry is covered through _create_socks_endpoint)", 'SOCKSPort lines whose unix path contains a space']
 
-ENTRIES = ['9050', '9050 IsolateDestAddr IsolateDestPort', '127.0.0.1:9150 IPv6Traffic', 'unix:/tmp/socks', 'unix:/tmp/socks WorldWritable']
+ENTRIES = ['9050', '9050 IsolateDestAddr IsolateDestPort', '127.0.0.1:9150 IPv6Traffic', 'unix:/tmp/socks', 'unix:/tmp/socks WorldWritable',
+           'auto']       # 'auto': Tor picked the port itself; GETCONF reports the word verbatim, so the entry cannot be used to connect
+DEFAULT_LINE = '9150 IPv6Traffic PreferIPv6 KeepAliveIsolateSOCKSAuth'     # a torrc-defaults SocksPort line with option words
 REQUESTS = [None, '9050', '905', '9999', '127.0.0.1:9150', 'unix:/tmp/socks', '150']
 
 
@@ -55,14 +57,16 @@ def _ep_target(ep):
     return ('other', repr(ep))
 
 
-def _choose(existing, request, via_config):
+def _choose(existing, request, via_config, defl=False):
+    """defl (only with no explicit entries): Tor's built-in default line carries option words (config/defaults and __SocksPort report it)"""
     values = dict(INITIAL)
     values['SocksPort'] = list(existing) if existing else None
-    values['__SocksPort'] = ['9050'] if not existing else None
-    p, t, tor = make_world(values, True, {})
+    dline = DEFAULT_LINE if defl else '9050'
+    values['__SocksPort'] = [dline] if not existing else None
+    p, t, tor = make_world(values, True, {'SocksPort': [dline]} if (defl and not existing) else {})
     reactor = MemoryReactorClock()
     endpoints.available_tcp_port = lambda r: defer.succeed(4711)
-    effective = list(existing) if existing else ['9050']
+    effective = list(existing) if existing else [dline]
     try:
         if via_config:
             cfg, out = bootstrap(p, tor)
@@ -73,7 +77,7 @@ def _choose(existing, request, via_config):
             n0 = len(tor.setconfs)
             if via_config == 2:
                 # the synchronous TorConfig.socks_endpoint(): only ever uses what Tor already has
-                usable0 = [e for e in effective if first_word(e) == request]
+                usable0 = [e for e in effective if first_word(e) == request and first_word(e) != 'auto']
                 try:
                     ep0 = cfg.socks_endpoint(reactor, request)
                 except RuntimeError:
@@ -103,7 +107,7 @@ def _choose(existing, request, via_config):
     other = [ln for ln in tor.lines if not (ln.startswith('GETCONF') or ln.startswith('GETINFO') or ln.startswith('SETEVENTS') or ln.startswith('SETCONF'))]
     if other:
         return R('unexpected-command', '%r', other)
-    usable = [e for e in effective if request is None or first_word(e) == request]
+    usable = [e for e in effective if (request is None or first_word(e) == request) and first_word(e) != 'auto']
     if usable:
         if sent:
             return R('tor-configuration-changed-although-a-configured-port-was-usable', 'existing %r request %r: %r', existing, request, sent)
@@ -125,17 +129,23 @@ def _choose(existing, request, via_config):
     return ''
 
 
-_EX = [()] + [(a,) for a in range(5)] + [(a, b) for a in range(5) for b in range(5) if first_word(ENTRIES[a]) != first_word(ENTRIES[b])]
+_NE = len(ENTRIES)
+_EX = [()] + [(a,) for a in range(_NE)] + [(a, b) for a in range(_NE) for b in range(_NE) if first_word(ENTRIES[a]) != first_word(ENTRIES[b])]
 
 
 @cond(quick=dict(parts=[{'via_config': v} for v in (0, 1, 2)], budget=150))
-def c18_choose(ex: int, rq: int, via_config: int) -> str:
+def c18_choose(ex: int, rq: int, via_config: int, defl: bool) -> str:
     """existing SOCKSPort configuration ex (index into the table of 0/1/2-entry configurations) x request rq, through
     _create_socks_endpoint (via_config 0), TorConfig.create_socks_endpoint (1) or the synchronous TorConfig.socks_endpoint (2)"""
     ex = api.pick(ex, 0, len(_EX) - 1)
     rq = api.pick(rq, 0, len(REQUESTS) - 1)
+    if ex != 0:
+        assume(not defl)
+    if via_config != 0:
+        # TorConfig reads an 'auto' SocksPort through Tor's __SocksPort pseudo-option; what Tor answers there is not modelled (OUTSIDE)
+        assume(all(ENTRIES[i] != 'auto' for i in _EX[ex]))
     with api.no_tracing():      # every choice is concrete by now
-        return _choose([ENTRIES[i] for i in _EX[ex]], REQUESTS[rq], via_config)
+        return _choose([ENTRIES[i] for i in _EX[ex]], REQUESTS[rq], via_config, True if defl else False)
 
 
 # ------------------------------------------------------------------ fallback
